@@ -2,6 +2,8 @@ import FxVerif.Model.C20
 import FxVerif.Model.C20Run
 import FxVerif.Model.C20Msg
 import FxVerif.Gen.C20Msg
+import FxVerif.Model.C20Handler
+import FxVerif.Gen.C20Handler
 import FxVerif.Model.Util
 /-! line-protocol driver for the C20 model: `lake env lean --run Driver/C20.lean < ops.txt`
 
@@ -24,6 +26,10 @@ import FxVerif.Model.Util
   decoded message described by the features (`e` = an external validator / expression returned an error or is true, key =
   function and argument paths joined by 0x01; `n` = the Int / Dec / pointer path is nil; `b` = its value; `a` = some coin of
   the set has a nil amount; `l` = length; `u` = number; `s` = bytes of a string field, hex); `bad-prog` for an unknown program
+* `hpanic <function> <single|quorum|any>` → `contained` when the regenerated handler inventory (`Gen/C20Handler.lean`) has a site in
+  that function, the function is outside the checked certificate `blockReach` (no block hook reaches it), the transaction
+  runner recovers first, and — for a vote that completes no quorum — the function is inside `ungatedReach`; otherwise
+  `unknown-function | no-site-in-function | block-reachable | behind-quorum-gate | runner-does-not-recover`
 * `paddr <hex> <bech32 ok 0/1> <checksum ok 0/1>` → `bech32 | evm | err` (`fxtypes.ParseAddress`)
 * `ethaddr <hex> <checksum ok 0/1>` → `ok | empty | wrong-length | invalid-format | checksum` (`contract.ValidateEthereumAddress`)
 -/
@@ -111,6 +117,15 @@ def step (_ : Unit) (line : String) : Unit × String :=
         | .ok () => "ok" | .error .empty => "empty" | .error .wrongLength => "wrong-length"
         | .error .invalidFormat => "invalid-format" | .error .checksumMismatch => "checksum")
     | none => ((), "bad-op")
+  | ["hpanic", fnName, votes] =>
+    match FxVerif.Gen.C20Handler.nodes.find? (·.name == fnName) with
+    | none => ((), "unknown-function")
+    | some n =>
+      ((), if !(FxVerif.Gen.C20Handler.hsites.any (·.fn == n.id)) then "no-site-in-function"
+        else if FxVerif.Model.C20Handler.inSet FxVerif.Gen.C20Handler.blockReach n.id then "block-reachable"
+        else if votes == "single" && !FxVerif.Model.C20Handler.inSet FxVerif.Gen.C20Handler.ungatedReach n.id then "behind-quorum-gate"
+        else if !FxVerif.Gen.C20Handler.runTxRecoversFirst then "runner-does-not-recover"
+        else "contained")
   | "pcv" :: key :: tname :: feats => ((), pcv key tname feats)
   | ["fee", mode, msgs, exempt, maxB, gas, fee, prices] =>
     match maxB.toNat?, gas.toNat?, (parseList fee).mapM parsePair, (parseList prices).mapM parsePair with
